@@ -492,6 +492,7 @@ type DocCfg struct {
 	MaxObj    int
 	HugeNums  bool // numbers outside float64 (C05 only)
 	ScalarPct int  // chance that the top value is a scalar
+	Rich      bool // the top value is a non-empty container of containers/scalars
 }
 
 var (
@@ -528,6 +529,9 @@ func (c DocCfg) withDefaults() DocCfg {
 func GenDoc(t *rapid.T, cfg DocCfg, label string) JV {
 	cfg = cfg.withDefaults()
 	d := &dgen{t: t, c: cfg, label: label}
+	if cfg.Rich {
+		return d.rich(cfg.MaxDepth)
+	}
 	if d.n(100, "topscalar") < cfg.ScalarPct {
 		return d.scalar()
 	}
@@ -545,6 +549,48 @@ func (d *dgen) n(k int, l string) int {
 		return 0
 	}
 	return rapid.IntRange(0, k-1).Draw(d.t, d.label+l)
+}
+
+// rich builds an array of 2-4 elements (or an object whose members are such
+// arrays) whose elements are mostly objects over the shared key alphabet.
+func (d *dgen) rich(depth int) JV {
+	arr := func() JV {
+		k := 2 + d.n(3, "rlen")
+		v := JV{K: 'a'}
+		homog := d.n(100, "rhomog") < 60
+		for i := 0; i < k; i++ {
+			if homog || d.n(100, "relobj") < 50 {
+				o := JV{K: 'o'}
+				used := map[string]bool{}
+				for j := 0; j < 1+d.n(2, "rmem"); j++ {
+					key := d.c.Keys[d.n(3, "rkey")]
+					if used[key] {
+						continue
+					}
+					used[key] = true
+					if d.n(100, "rnest") < 25 {
+						o.Obj = append(o.Obj, JMember{Key: key, Val: d.value(depth - 2)})
+					} else {
+						o.Obj = append(o.Obj, JMember{Key: key, Val: d.scalar()})
+					}
+				}
+				v.Arr = append(v.Arr, o)
+			} else {
+				v.Arr = append(v.Arr, d.value(depth-2))
+			}
+		}
+		return v
+	}
+	if d.n(100, "rtop") < 55 {
+		return arr()
+	}
+	o := JV{K: 'o'}
+	o.Obj = append(o.Obj, JMember{Key: d.c.Keys[d.n(3, "rk1")], Val: arr()})
+	if d.n(100, "rsecond") < 40 {
+		k2 := d.c.Keys[3+d.n(3, "rk2")]
+		o.Obj = append(o.Obj, JMember{Key: k2, Val: d.value(depth - 1)})
+	}
+	return o
 }
 
 func (d *dgen) scalar() JV {
@@ -656,4 +702,223 @@ func sortedKeys[V any](m map[string]V) []string {
 	}
 	sort.Strings(ks)
 	return ks
+}
+
+// ---------------------------------------------------------------------------
+// document-directed generation: paths that actually reach data
+
+// litFor builds a literal node denoting the scalar v (nil if v is a container).
+func litFor(v any) *Node {
+	switch v := v.(type) {
+	case nil:
+		return &Node{K: KNull}
+	case bool:
+		if v {
+			return &Node{K: KTrue}
+		}
+		return &Node{K: KFalse}
+	case string:
+		return &Node{K: KStr, S: v}
+	case float64:
+		if v == float64(int64(v)) && v >= 0 && v < 1e15 {
+			return &Node{K: KInt, I: int64(v)}
+		}
+		if v == float64(int64(v)) && v < 0 && v > -1e15 {
+			return &Node{K: KInt, I: int64(v)}
+		}
+		return &Node{K: KNum, F: v}
+	case json.Number:
+		if i, err := v.Int64(); err == nil {
+			return &Node{K: KInt, I: i}
+		}
+		if f, err := v.Float64(); err == nil {
+			return &Node{K: KNum, F: f}
+		}
+	}
+	return nil
+}
+
+// walkStep applies an accessor to items the way lax mode roughly does; it
+// only steers generation and is not an oracle.
+func walkStep(items []any, a *Node) []any {
+	var out []any
+	for _, it := range items {
+		switch a.K {
+		case KKey:
+			if arr, ok := it.([]any); ok {
+				for _, e := range arr {
+					if m, ok := e.(map[string]any); ok {
+						if v, ok := m[a.S]; ok {
+							out = append(out, v)
+						}
+					}
+				}
+			} else if m, ok := it.(map[string]any); ok {
+				if v, ok := m[a.S]; ok {
+					out = append(out, v)
+				}
+			}
+		case KAnyArr:
+			if arr, ok := it.([]any); ok {
+				out = append(out, arr...)
+			} else {
+				out = append(out, it)
+			}
+		case KAnyKey:
+			if m, ok := it.(map[string]any); ok {
+				for _, k := range sortedKeys(m) {
+					out = append(out, m[k])
+				}
+			}
+		case KIdx:
+			if arr, ok := it.([]any); ok && len(arr) > 0 {
+				out = append(out, arr[0])
+			}
+		}
+	}
+	return out
+}
+
+// GenWalk draws an accessor chain that follows the structure of doc, and
+// returns it with the (approximate) items it reaches.
+func GenWalk(t *rapid.T, doc any, maxSteps int, strict bool, label string) (*Node, []any) {
+	n := func(k int, l string) int {
+		if k <= 1 {
+			return 0
+		}
+		return rapid.IntRange(0, k-1).Draw(t, label+l)
+	}
+	items := []any{doc}
+	var first, last *Node
+	steps := n(maxSteps+1, "steps")
+	for i := 0; i < steps; i++ {
+		var cands []*Node
+		for _, it := range items {
+			switch v := it.(type) {
+			case map[string]any:
+				for _, k := range sortedKeys(v) {
+					cands = append(cands, &Node{K: KKey, S: k})
+				}
+			case []any:
+				cands = append(cands, &Node{K: KAnyArr}, &Node{K: KAnyArr})
+				if len(v) > 0 {
+					cands = append(cands, &Node{K: KIdx, Subs: []Sub{{From: &Node{K: KInt, I: 0}, To: &Node{K: KLast}}}})
+					for _, e := range v {
+						if m, ok := e.(map[string]any); ok {
+							for _, k := range sortedKeys(m) {
+								cands = append(cands, &Node{K: KKey, S: k})
+							}
+						}
+					}
+				}
+			}
+		}
+		if strict {
+			// strict mode: a step must apply to every item
+			var ok []*Node
+			for _, cnd := range cands {
+				all := true
+				for _, it := range items {
+					switch cnd.K {
+					case KKey:
+						m, isObj := it.(map[string]any)
+						if !isObj {
+							all = false
+						} else if _, has := m[cnd.S]; !has {
+							all = false
+						}
+					case KAnyArr:
+						if _, isArr := it.([]any); !isArr {
+							all = false
+						}
+					case KIdx:
+						if arr, isArr := it.([]any); !isArr || len(arr) == 0 {
+							all = false
+						}
+					}
+				}
+				if all {
+					ok = append(ok, cnd)
+				}
+			}
+			cands = ok
+		}
+		if len(cands) == 0 {
+			break
+		}
+		a := cands[n(len(cands), "cand")].Clone()
+		next := walkStep(items, a)
+		if a.K == KIdx {
+			next = nil
+			for _, it := range items {
+				if arr, ok := it.([]any); ok {
+					next = append(next, arr...)
+				}
+			}
+		}
+		if len(next) == 0 {
+			break
+		}
+		items = next
+		if first == nil {
+			first = a
+		} else {
+			last.Next = a
+		}
+		last = a
+	}
+	return first, items
+}
+
+// GenCondFor draws a condition over @ that is related to the given items, so
+// that true / false / unknown outcomes all occur.
+func GenCondFor(t *rapid.T, items []any, g *pgen, label string) *Node {
+	n := func(k int, l string) int {
+		if k <= 1 {
+			return 0
+		}
+		return rapid.IntRange(0, k-1).Draw(t, label+l)
+	}
+	var flat []any
+	for _, it := range items {
+		if arr, ok := it.([]any); ok {
+			flat = append(flat, arr...)
+		} else {
+			flat = append(flat, it)
+		}
+	}
+	targeted := func() *Node {
+		if len(flat) == 0 {
+			return g.pred(gctx{inFilter: true})
+		}
+		x := flat[n(len(flat), "item")]
+		op := cmpOps[n(len(cmpOps), "op")]
+		if m, ok := x.(map[string]any); ok && len(m) > 0 {
+			ks := sortedKeys(m)
+			k := ks[n(len(ks), "key")]
+			lhs := &Node{K: KCur, Next: &Node{K: KKey, S: k}}
+			if l := litFor(m[k]); l != nil {
+				return &Node{K: KBin, S: op, A: lhs, B: l}
+			}
+			return &Node{K: KExists, A: lhs}
+		}
+		if l := litFor(x); l != nil {
+			if s, ok := x.(string); ok && len(s) > 0 && n(3, "sw") == 0 {
+				return &Node{K: KBin, S: "starts with", A: &Node{K: KCur}, B: &Node{K: KStr, S: s[:1]}}
+			}
+			return &Node{K: KBin, S: op, A: &Node{K: KCur}, B: l}
+		}
+		return &Node{K: KBin, S: op, A: &Node{K: KCur, Next: &Node{K: KMethod, S: "size"}}, B: &Node{K: KInt, I: int64(n(3, "size"))}}
+	}
+	switch r := n(100, "shape"); {
+	case r < 45:
+		return targeted()
+	case r < 60:
+		return &Node{K: KBin, S: []string{"&&", "||"}[n(2, "conn")], A: targeted(), B: targeted()}
+	case r < 68:
+		return &Node{K: KUn, S: "!", A: targeted()}
+	case r < 75:
+		return &Node{K: KBin, S: []string{"&&", "||"}[n(2, "conn2")], A: targeted(), B: g.pred(gctx{inFilter: true})}
+	}
+	return g.pred(gctx{inFilter: true})
 }
